@@ -1469,7 +1469,7 @@ class Unit:
                 if not m:
                     raise ExtractError("%s: bad //@closure argument" % label)
                 rule_R7(ed, src, parts, int(m.group(1)), m.group(2), text)
-            elif name in ("subst", "nospinoff", "r4inv", "r4body", "r4after", "optional"):
+            elif name in ("subst", "nospinoff", "r4inv", "r4body", "r4after", "optional", "modelled"):
                 pass
             elif name == "pubfields":
                 rule_R8(ed, src, a, b)
@@ -1485,13 +1485,27 @@ class Unit:
             ed.insert(head_ins, "#[verifier::spinoff_prover]\n", "A", "attribute")
         # substitutions (R6 path re-rooting) -- token-sequence replacement
         substs = list(default_subst)
+        modelled = []
         for (name, arg, tlines) in blk.subs:
             if name == "subst":
                 m = BQ.findall(arg)
                 if len(m) != 2:
                     raise ExtractError("%s: bad //@subst `%s`" % (label, arg))
                 substs.append((m[0], m[1]))
+            elif name == "modelled":
+                m = BQ.findall(arg)
+                if len(m) != 2:
+                    raise ExtractError("%s: bad //@modelled `%s`" % (label, arg))
+                modelled.append((m[0], m[1]))
         text, log = ed.render()
+        # R12: an expression outside the verifier's reach (iterator adapter with a closure) is
+        # replaced by a call to an assumed stub that states what it yields; the anchor must be there
+        for (old, new) in modelled:
+            t2 = _subst_text(text, old, new)
+            if t2 == text:
+                raise ExtractError("lost anchor: modelled expression `%s` not found in %s" % (old, label))
+            log.append({"rule": "R12", "line": src.line_of(ed.lo), "before": old, "after": new, "note": "expression replaced by an ASSUMED stub (its contract is part of the trusted base)"})
+            text = t2
         # R6 path re-rooting: token-sequence replacement over the rendered item
         for (old, new) in substs:
             t2 = _subst_text(text, old, new)
